@@ -107,11 +107,11 @@ def from_plan(shape, feats, i, for_codec=True):
     noise = "docs" in F and "rename" in F
     if shape == "struct_unit":
         dd = decl("struct", name, "unit", (), (), tparams=[], lifetimes=[], capture=capture, capture_text=ctext, replace=replace, docs=docs, mods=mods, inst=[], **style)
-        dd["crate_path"] = "crate_path" in F
+        dd["crate_path"] = "crate_path" in F; dd["rev_attrs"] = "rev_attrs" in F
         return dd
     if shape != "enum":
         dd = decl("struct", name, "named" if named else "unnamed", fs, (), tparams, lifetimes, capture, replace, docs, mods, inst, ctext, consts=consts, **style)
-        dd["doc_noise"] = noise; dd["crate_path"] = "crate_path" in F
+        dd["doc_noise"] = noise; dd["crate_path"] = "crate_path" in F; dd["rev_attrs"] = "rev_attrs" in F
         return dd
     unn = [dict(f, name=[], rename=[]) for f in fs]
     vs = [variant("A", docs=([" variant doc"] if "docs" in F else ())),
@@ -128,7 +128,7 @@ def from_plan(shape, feats, i, for_codec=True):
         next(v for v in vs if v["name"] == "B")["discr"] = [33]
     if "codec_index" in F and "discriminant" in F: vs.append(variant("Z", "unit", cindex=9, discr=77))
     dd = decl("enum", name, "named", (), vs, tparams, lifetimes, capture, replace, docs, mods, inst, ctext, consts=consts, **style)
-    dd["doc_noise"] = noise; dd["crate_path"] = "crate_path" in F
+    dd["doc_noise"] = noise; dd["crate_path"] = "crate_path" in F; dd["rev_attrs"] = "rev_attrs" in F
     return dd
 
 # ------------------------------------------------------------------------------------------------
@@ -176,6 +176,7 @@ def rand_decl(r, i, for_codec=True):
     d["combined"] = r.random() < 0.3
     d["doc_noise"] = r.random() < 0.3
     d["crate_path"] = r.random() < 0.12
+    d["rev_attrs"] = r.random() < 0.25
     if r.random() < 0.12 and d["shape"] != "unit" and (d["kind"] == "struct" or d["variants"]):
         named = d["shape"] == "named"
         tgt = d["fields"] if d["kind"] == "struct" else None
@@ -272,12 +273,15 @@ def docs_src(ds, ind, attr_form=False):
 
 
 def field_src(f, d, ind, pub, with_codec):
-    s = docs_src(f["docs"], ind, d.get("doc_attr"))
-    if f["docs"] and d.get("doc_noise"): s += ind + "#[doc(hidden)]\n" + ind + "#[allow(dead_code)]\n"      # not doc lines
-    if f["skip"]: s += ind + "#[codec(skip)]\n"
-    if f["compact"]: s += ind + "#[codec(compact)]\n"
-    if f.get("encoded_as"): s += ind + '#[codec(encoded_as = "%s")]\n' % f["encoded_as"][0]
-    if f["rename"]: s += ind + '#[scale_info(rename = "%s")]\n' % f["rename"][0]
+    dsrc = docs_src(f["docs"], ind, d.get("doc_attr"))
+    if f["docs"] and d.get("doc_noise"): dsrc += ind + "#[doc(hidden)]\n" + ind + "#[allow(dead_code)]\n"      # not doc lines
+    a = []
+    if f["skip"]: a.append(ind + "#[codec(skip)]\n")
+    if f["compact"]: a.append(ind + "#[codec(compact)]\n")
+    if f.get("encoded_as"): a.append(ind + '#[codec(encoded_as = "%s")]\n' % f["encoded_as"][0])
+    if f["rename"]: a.append(ind + '#[scale_info(rename = "%s")]\n' % f["rename"][0])
+    # rev_attrs: the member's attributes in the opposite order and BEFORE its doc lines
+    s = ("".join(reversed(a)) + dsrc) if d.get("rev_attrs") else (dsrc + "".join(a))
     s += ind + ("pub " if pub else "") + (f["name"][0] + ": " if f["name"] else "") + src(f["ty"], d) + ",\n"
     return s
 
@@ -302,7 +306,9 @@ def decl_src0(d, with_codec):
     skipped = [p["name"] for p in d["tparams"] if p["skip"]]
     if skipped: attrs.append("skip_type_params(" + ", ".join(skipped) + ")")
     if d["capture"] != "absent": attrs.append('capture_docs = "%s"' % d.get("capture_text", d["capture"]))
-    for a, b in d["replace"]: attrs.append('replace_segment("%s", "%s")' % (a, b))
+    groups = [list(attrs), ['replace_segment("%s", "%s")' % (a, b) for a, b in d["replace"]]]      # (the table's own order is semantics: first match wins)
+    if d.get("rev_attrs"): groups = [groups[1], list(reversed(groups[0]))]                          # the KINDS of items in the opposite order
+    attrs = groups[0] + groups[1]
     if d.get("crate_path"): attrs.insert(len(attrs) // 2, "crate = crate::reexp::si")      # metadata-neutral: where the emitted paths start
     if d.get("combined") and attrs:
         s += "#[scale_info(%s)]\n" % ", ".join(attrs)          # all items in one attribute
